@@ -78,7 +78,7 @@ func runSteps(t vkit.TB, steps []Cell, whole Case) (sums []string, classes []str
 			return sums, classes, false
 		}
 		c := steps[i]
-		vkit.Case(res.class, res.nontriv, fmt.Sprintf("%s|%s|%s|%s|%v|%v|%s", c.Cmd, c.Identity, c.Claim, c.Target, c.AsResp, c.Pending, c.BodyTarget))
+		vkit.Case(res.class, res.nontriv, fmt.Sprintf("%s|%s|%s|%s|%v|%v|%s|%s|%s", c.Cmd, c.Identity, c.Claim, c.Target, c.AsResp, c.Pending, c.BodyTarget, c.When, c.MState))
 		if res.nontriv {
 			vkit.Sample(res.class, map[string]any{"cell": c, "outcome": trunc(res.summary, 300)})
 		}
@@ -125,9 +125,14 @@ func cellsOf(sp *spec, id string, draw int) []Cell {
 		}
 	}
 	if sp.Resp {
-		a, b := base, base
-		b.Pending = true
-		return []Cell{a, b}
+		// nothing pending / the foreign answer arrives after, before, during the write of the request to the target
+		out := []Cell{base}
+		for _, when := range []string{"", "before", "during"} {
+			c := base
+			c.Pending, c.When = true, when
+			out = append(out, c)
+		}
+		return out
 	}
 	if sp.Type == packet.SOCKS5TunnelRequestCmd || sp.Type == packet.DNSResolve || sp.Type == packet.DNSQuery {
 		// the in-body target_client_id: the mapping's target (default), omitted, an unrelated online client, the listen client itself
@@ -137,9 +142,26 @@ func cellsOf(sp *spec, id string, draw int) []Cell {
 			c.BodyTarget = bt
 			out = append(out, c)
 		}
+		if draw == 0 {
+			out = append(out, mappingStates(base)...)
+		}
 		return out
 	}
+	if draw == 0 && (sp.Object == "mapping" || sp.Object == "traffic") {
+		return append([]Cell{base}, mappingStates(base)...)
+	}
 	return []Cell{base}
+}
+
+// mappingStates: the same cell against a victim mapping whose record exists but is not valid.
+func mappingStates(base Cell) []Cell {
+	var out []Cell
+	for _, st := range []string{"revoked", "expired", "inactive"} {
+		c := base
+		c.MState = st
+		out = append(out, c)
+	}
+	return out
 }
 
 // TestMatrix: every dispatched command type x requester identity x claimed fields, victim objects named in the body.
@@ -159,7 +181,7 @@ func TestMatrix(t *testing.T) {
 			}
 		}
 	}
-	vkit.Exhaustive("command type (13 registry + 8 special forms) x identity {none, challenged, L, T, S} x claim {empty, own, T, L} x pending {no, yes} for response forms x in-body target_client_id {mapping target, absent, S, L} for SOCKS5 / DNS requests", true)
+	vkit.Exhaustive("command type (13 registry + 8 special forms) x identity {none, challenged, L, T, S} x claim {empty, own, T, L} x pending {no, yes} for response forms x in-body target_client_id {mapping target, absent, S, L} for SOCKS5 / DNS requests x answer timing {after, before, during the write of the pending request} for response forms x victim mapping state {active, revoked, expired, inactive} for mapping operations", true)
 	if vkit.Shard() == 0 {
 		vkit.Extra("command_types_in_table", len(specs))
 	}
@@ -296,7 +318,9 @@ func genCell(t *rapid.T) Cell {
 	if sp.Type == packet.SOCKS5TunnelRequestCmd || ((sp.Type == packet.DNSResolve || sp.Type == packet.DNSQuery) && !sp.Resp) {
 		c.BodyTarget = rapid.SampledFrom([]string{"", "absent", "T", "S", "L", "S"}).Draw(t, "bodyTarget")
 	}
+	c.MState = rapid.SampledFrom([]string{"", "", "", "revoked", "expired", "inactive"}).Draw(t, "mstate")
 	if sp.Resp {
+		c.When = rapid.SampledFrom([]string{"", "before", "during", "during"}).Draw(t, "when")
 		c.Pending = rapid.Bool().Draw(t, "pending")
 	} else if sp.Type != packet.DNSResolve && sp.Type != packet.DNSQuery {
 		c.AsResp = rapid.Bool().Draw(t, "flip")
